@@ -295,7 +295,8 @@ level = "error"
                                     break;
                                 }
                             }
-                            verdict
+                            // a child that exited meanwhile (e.g. its gRPC bind failed) never was ready
+                            verdict && matches!(child.try_wait(), Ok(None))
                         }
                         None => true,
                     };
@@ -303,10 +304,14 @@ level = "error"
                     self.child = Some(child);
                     return Ok(());
                 }
+                let exited = child.try_wait().ok().flatten();
                 let _ = child.kill();
                 let _ = child.wait();
                 if attempt == 3 {
-                    return Err("the server answering on the chosen ports is not this harness's child (port clash)".into());
+                    return Err(match exited {
+                        Some(st) => format!("server exited during start-up with {:?}", st.code()),
+                        None => "the server answering on the chosen ports is not this harness's child (port clash)".into(),
+                    });
                 }
                 continue;
             }
